@@ -89,11 +89,13 @@ PROPS = {
     "C11": dict(
         module="Anonymongo.Props.C11",
         theorems=["Anonymongo.KeyFile.C11_create", "Anonymongo.KeyFile.C11_reuse", "Anonymongo.KeyFile.C11_refuse", "Anonymongo.KeyFile.C11_unusable_iff",
-                  "Anonymongo.KeyFile.C11_seq", "Anonymongo.KeyFile.C11_never_overwrite"],
-        corr=[],
-        statement="for ANY base64 codec with dec(enc b) = b, any fresh key material, any file content and ANY number of runs: no key file -> the fresh 64-byte key is stored and reads back as the same key, and it is the key in force; a valid key file is used and left byte-for-byte untouched (fresh material ignored); an unusable key (undecodable, not 64 bytes, directory, unreadable, path that cannot be created or examined) makes the run fail before any processing and is never overwritten; over any sequence of runs starting without a key, every later run proceeds with the first run's key and the file keeps the first run's bytes",
+                  "Anonymongo.KeyFile.C11_seq", "Anonymongo.KeyFile.C11_never_overwrite",
+                  "Anonymongo.C11_create_std", "Anonymongo.C11_seq_std", "Anonymongo.C11_file_size", "Anonymongo.Base64.dec_enc"],
+        extra_modules=["Anonymongo.Props.C09c"],
+        corr=["crypto"],
+        statement="for ANY base64 codec with dec(enc b) = b, any fresh key material, any file content and ANY number of runs: no key file -> the fresh 64-byte key is stored and reads back as the same key, and it is the key in force; a valid key file is used and left byte-for-byte untouched (fresh material ignored); an unusable key (undecodable, not 64 bytes, directory, unreadable, path that cannot be created or examined) makes the run fail before any processing and is never overwritten; over any sequence of runs starting without a key, every later run proceeds with the first run's key and the file keeps the first run's bytes; CONCRETE codec (Props/C09c keyCodec = encoding/base64 StdEncoding on the file bytes, round trip PROVED): the stored file is 88 bytes and reads back as the same key",
         partial="the model of the key step (Model/KeyFile.lean: FileExists / GenerateKey / WriteKeyToFile / ReadKeyFromFile as a state transition over an abstract file-system object) is tied to the code by whole-program runs over every initial state x run sequence (quick: 2 sequences, thorough: 5), comparing key bytes, mode, exit status and output; 'fresh random', 0600 permission bits, 'stored before any ciphertext is written' (checked with a run aborted by an over-long line) and the OS behaviour of stat / write on directories are runtime; 'unreadable' cannot be produced as root in this sandbox",
-        trusted=["encoding/base64 StdEncoding: dec(enc b) = b; it ignores CR / LF inside the text (so a key file with a trailing newline is valid)", "crypto/rand", "os.Stat / os.WriteFile / os.ReadFile semantics"],
+        trusted=["encoding/base64 StdEncoding computes the function of Model/Base64.lean (CR / LF ignored anywhere, mandatory padding, unused bits unchecked): corresponded on key-file contents and damaged texts, round trip proved", "crypto/rand", "os.Stat / os.WriteFile / os.ReadFile semantics"],
     ),
     "C12": dict(
         module="Anonymongo.Props.C12",
@@ -153,21 +155,26 @@ PROPS = {
     ),
     "C09": dict(
         module="Anonymongo.Props.C09",
-        theorems=["Anonymongo.C09_roundtrip", "Anonymongo.C09_tamper", "Anonymongo.C10_inj"],
-        corr=["line"],
-        statement="for ANY deterministic AEAD and base64 codec satisfying dec(enc p) = p and 'accepted => genuine': the leaf emitted for s decrypts through the decrypt command to exactly utf8(s); anything the decrypt command accepts is the genuine ciphertext of what it prints",
-        partial="the AEAD laws are assumptions about Tink AES-SIV (listed in the trusted base), not proved; 'a different key / an altered ciphertext fails' is a 2^-128 statement, sampled end to end through the real CLI (bit flips, truncations, extensions, wrong key)",
-        trusted=["tink-go AES-SIV: dec(k, enc(k, p)) = p and decryption accepts only genuine ciphertexts; encoding/base64 round trip; os.ReadFile of the key file"],
+        theorems=["Anonymongo.C09_roundtrip", "Anonymongo.C09_tamper", "Anonymongo.C10_inj",
+                  "Anonymongo.C09_roundtrip_aes", "Anonymongo.C09_tamper_aes", "Anonymongo.C09_short_refused", "Anonymongo.C09_leaf_length", "Anonymongo.aesEncFn_eq",
+                  "Anonymongo.Siv.dec_enc", "Anonymongo.Siv.dec_only", "Anonymongo.Siv.decWith_encWith", "Anonymongo.Siv.decWith_only", "Anonymongo.Siv.ctr_ctr",
+                  "Anonymongo.Base64.dec_enc"],
+        extra_modules=["Anonymongo.Props.C09c"],
+        corr=["line", "crypto"],
+        statement="generic: for ANY deterministic AEAD and base64 codec satisfying dec(enc p) = p and 'accepted => genuine', the leaf emitted for s decrypts through the decrypt command to exactly utf8(s), and anything the decrypt command accepts is the genuine ciphertext of what it prints. CONCRETE (Props/C09c): the AEAD is the RFC 5297 SIV construction (CMAC-S2V with one empty associated-data component, CTR with the two cleared bits) over AES-256 exactly as Tink computes it, the codec is encoding/base64 StdEncoding; both laws are THEOREMS for every key, every plaintext length (incl. 0) and every pair of block functions returning 16 bytes (Siv.dec_enc, Siv.dec_only: CTR under one SIV is an involution, the tag is recomputed from the recovered plaintext; Base64.dec_enc) - so C09_roundtrip_aes / C09_tamper_aes carry no library assumption; a ciphertext shorter than the 16-byte SIV is always refused; the leaf has 4*ceil((|utf8 s|+16)/3) characters",
+        partial="that Tink and encoding/base64 COMPUTE these functions is the crypto correspondence (ciphertext bytes of the model and of Tink compared for every length 0..49 and block boundaries up to 4097 bytes, several keys, damaged ciphertexts / keys through both decryptors, base64 texts with line breaks / damaged padding / non-zero unused bits through both decoders, key-file contents through both readers, whole lines in real encrypt mode byte for byte). 'a different key / an altered ciphertext fails' is a 2^-128 statement about AES, not provable: sampled end to end through the real CLI (bit flips, truncations, extensions, wrong key)",
+        trusted=["tink-go AES-SIV computes the function of Model/Siv.lean + Model/Aes.lean (corresponded byte for byte, not verified); os.ReadFile of the key file"],
     ),
     "C10": dict(
         module="Anonymongo.Props.C09",
         theorems=["Anonymongo.C10_det", "Anonymongo.C10_inj", "Anonymongo.C10_closed", "Anonymongo.C10_bad_key", "Anonymongo.C10_equiv_leaf",
-                  "Anonymongo.C10_equiv_walk", "Anonymongo.C10_same_keys", "Anonymongo.Ctx.run_flow", "Anonymongo.Facts_wiring"],
-        extra_modules=["Anonymongo.Props.C10", "Anonymongo.Props.SrcFacts"],
-        corr=["line", "misc", "sweep"],
-        statement="the ciphertext leaf is a function of (key, plaintext); injective; with an encryption function that fails the leaf is the placeholder (never the plaintext); at every leaf encrypt mode and placeholder mode take the same decision and differ only where placeholder mode replaces a string",
+                  "Anonymongo.C10_equiv_walk", "Anonymongo.C10_same_keys", "Anonymongo.Ctx.run_flow", "Anonymongo.Facts_wiring",
+                  "Anonymongo.C10_inj_aes", "Anonymongo.aesEncFn_eq", "Anonymongo.Siv.dec_enc"],
+        extra_modules=["Anonymongo.Props.C10", "Anonymongo.Props.SrcFacts", "Anonymongo.Props.C09c"],
+        corr=["line", "misc", "sweep", "crypto"],
+        statement="the ciphertext leaf is a function of (key, plaintext); injective; with an encryption function that fails the leaf is the placeholder (never the plaintext); at every leaf encrypt mode and placeholder mode take the same decision and differ only where placeholder mode replaces a string; CONCRETE: with AES-256-SIV as Tink computes it and std base64 the leaf is base64(SIV || CTR(utf8 s)) - a pure function of (key bytes, string) with no nonce, counter or process state (aesEncFn_eq) - and equal leaves mean equal plaintext bytes (C10_inj_aes, from the proved round trip)",
         partial="C10_equiv_walk lifts the leaf statement to every tree and walker state (two-configuration simulation run_flow: same keys, order, lengths; leaves equal except placeholder-string vs ciphertext of the INPUT string at that position), with field-name redaction off; --replacement reaching its setter unconditionally is the regenerated-fact obligation Facts_wiring and the CLI-vs-in-process oracle; determinism across separate processes is a property of Tink and key loading: sampled",
-        trusted=["tink-go AES-SIV determinism across processes"],
+        trusted=["tink-go AES-SIV computes the function of Model/Siv.lean (corresponded byte for byte on fixed keys in every run, hence across processes)"],
     ),
     "C20": dict(
         module="Anonymongo.Props.C20",
